@@ -81,3 +81,4 @@ revert e1ffc85 C09 C01
 revert 1fbc700 C09
 revert 8cda771 C14
 revert 41582cd C04
+revert a0a84df C05
